@@ -142,7 +142,12 @@ pub struct MH {
     pub exp: Option<Rc<Vec<String>>>,
     pub rep: Option<Stmt>,
     pub nan: Option<bool>,
+    /// rough size (operations, including those of composed handles): keeps self- and mutual
+    /// composition from growing statements exponentially
+    pub weight: u64,
 }
+
+pub const MAX_WEIGHT: u64 = 3000;
 
 impl MH {
     pub fn new(fam: Family, log: Log) -> MH {
@@ -154,6 +159,7 @@ impl MH {
             exp: None,
             rep: None,
             nan: None,
+            weight: 1,
         }
     }
     pub fn touch(&mut self) {
